@@ -499,11 +499,12 @@ pub fn specs(tier: &str) -> Vec<ExpSpec> {
     }
     // access dates on, advancing clock: a read between the write and the flush changes the cached entry (access date)
     // without changing the content; the pending size / first-cluster update must still reach the storage
-    for ft in [FatType::Fat12, FatType::Fat32] {
+    // (frozen clock: the read happens on the day of the write, the access date stays what it is; advancing clock: it changes)
+    for (ft, ticking) in [(FatType::Fat12, false), (FatType::Fat12, true), (FatType::Fat32, false)] {
         let mut c = vol::tiny_with(ft, 12, 16);
-        c.name = format!("{}-atime", c.name);
+        c.name = format!("{}-atime{}", c.name, if ticking { "-clock" } else { "" });
         c.atime = true;
-        c.ticking = true;
+        c.ticking = ticking;
         let r = DirRef::Root;
         let al = vec![
             Op::CreateFile { base: r, path: "f".into(), keep: Some(0) },
